@@ -27,6 +27,9 @@ enum Kind {
     /// the same burst while the workers are slow: the owner's request channel is full
     /// when a coordinator round comes by; afterwards one more small write, no flush()
     TickOnFullChannel,
+    /// exactly n new records drained as one batch (n around the points where the
+    /// allocation-journal image grows by a block), then one more small write
+    BatchOf(u16),
 }
 
 #[derive(Clone, Copy, Debug, PartialEq)]
@@ -72,7 +75,7 @@ struct CaseResult {
 
 fn run_case(workers: usize, shard: usize, kind: Kind, nb: Neighbours) -> CaseResult {
     let mut res = CaseResult { problems: Vec::new(), machinery: None, rounds: 0 };
-    let big = matches!(kind, Kind::Burst | Kind::TickOnFullChannel);
+    let big = matches!(kind, Kind::Burst | Kind::TickOnFullChannel | Kind::BatchOf(_));
     let mut cfg = Cfg::persistent(if big { 1300 } else { 64 });
     cfg.workers = workers;
     cfg.ttl = kind == Kind::Sweep;
@@ -157,6 +160,24 @@ fn run_case(workers: usize, shard: usize, kind: Kind, nb: Neighbours) -> CaseRes
                 st.insert(k, b"burst").unwrap();
                 expect_present.push((k.clone(), b"burst".to_vec()));
             }
+        }
+        Kind::BatchOf(n) => {
+            // nothing is taken by a worker before all n are buffered: one batch of exactly n
+            sut.sess.hold_workers.store(true, Ordering::SeqCst);
+            for k in &key_of[shard][..n as usize] {
+                st.insert(k, b"batch").unwrap();
+                expect_present.push((k.clone(), b"batch".to_vec()));
+            }
+            sut.sess.hold_workers.store(false, Ordering::SeqCst);
+            for _ in 0..2 {
+                if let Err(e) = one_round(&sut) {
+                    res.problems.push(format!("C19: {kind:?} on shard {shard} of {workers}: {e}"));
+                    return res;
+                }
+            }
+            let late = &key_of[shard][1100];
+            st.insert(late, b"after the batch").unwrap();
+            expect_present.push((late.clone(), b"after the batch".to_vec()));
         }
         Kind::TickOnFullChannel => {
             sut.sess.hold_workers.store(true, Ordering::SeqCst);
@@ -286,6 +307,14 @@ pub fn check(tier: &str, budget_s: f64, report: &mut Report) {
             }
         }
     }
+    // batch sizes around the journal-image block boundaries (507 entries fit the first
+    // block beside the 40-byte header, 512 in each further block) and the 1024 trigger
+    for n in (505u16..=514).chain(1017..=1023) {
+        cases.push((1, 0, Kind::BatchOf(n), Neighbours::Idle));
+        if thorough {
+            cases.push((2, 1, Kind::BatchOf(n), Neighbours::Idle));
+        }
+    }
     let n = cases.len();
     let dl = crate::util::Deadline::new(budget_s);
     let done = AtomicU64::new(0);
@@ -329,6 +358,7 @@ pub fn debug_case(workers: usize, shard: usize, kind: &str) -> i32 {
     let kind = match kind {
         "burst" => Kind::Burst,
         "fullchannel" => Kind::TickOnFullChannel,
+        k if k.starts_with("batch") => Kind::BatchOf(k[5..].parse().unwrap_or(509)),
         "insert" => Kind::Insert,
         "overwrite" => Kind::Overwrite,
         "delete" => Kind::Delete,
